@@ -35,7 +35,7 @@ LEVEL_TEXT = ('Coq theorems: (message) for every reader state and byte stream, w
               'a header line ".Date: x") and proved for all messages outside that decidable class (C02_submission_partial). '
               'Tied to the binary by byte-for-byte comparison of recorded hand-offs in whole-program runs.')
 LEVEL_NOTE = ('Partial: known finding F-C02-2 (a field hidden behind a needless leading dot is added a second time on port 587); the date text, the clock and control/msgidhost are oracles; '
-              'non-"none" Received-SPF is not in this model (C11); address normalisation (lower-casing) is the address oracle (C14).')
+              'Received-SPF other than "none" is compared through the extracted C11 model, not built by the session model itself; address normalisation (lower-casing) is the address oracle (C14).')
 TECHNIQUE = 'Coq loop invariant over smtp_data with a ghost list of data lines; simulation proof for envelopes; structural proof of the header builder; whole-program byte comparison of hand-offs'
 DESIGN_REF = 'DESIGN.md section 5, C02'
 
